@@ -218,14 +218,139 @@ def node_level(ck, tier):
                 pass
 
 
+def run_sender(script):
+    """script = {'seed': n, 'msgs': [[message hex, previous header hex or None], ...]}: the real ConnectedRemotePeer
+    sends those messages through a socket that takes a seed-determined number of bytes per send(), the socket turning
+    writable a seed-determined number of times between two send_message calls.
+    Returns (pieces written, messages, previous headers, peer)"""
+    import io
+    import random
+    import selectors
+    from skepticoin.networking import remote_peer as RP
+    from skepticoin.networking import messages as M
+    rng = random.Random(script['seed'])
+
+    class Sel:
+        writing = False
+
+        def modify(self, sock, events, data=None):
+            self.writing = bool(events & selectors.EVENT_WRITE)
+
+    class Log:
+        def info(self, *a, **k):
+            pass
+        error = warning = debug = info
+
+    class LP:
+        def __init__(self):
+            self.selector = Sel()
+            self.logger = Log()
+
+    class Sock:
+        def __init__(self):
+            self.pieces = []
+
+        def send(self, data):
+            n = rng.choice([1, 1, 2, 3, 5, 8, 13, 60, len(data), len(data)])
+            n = max(1, min(n, len(data)))
+            self.pieces.append(bytes(data[:n]))
+            return n
+
+    lp = LP()
+    sock = Sock()
+    peer = RP.ConnectedRemotePeer(lp, '10.0.0.1', 2412, 'OUTGOING', None, sock, 0)
+    msgs = []
+    prevs = []
+    for mhex, phex in script['msgs']:
+        m = M.Message.stream_deserialize(io.BytesIO(bytes.fromhex(mhex)))
+        prev = None if phex is None else M.MessageHeader.stream_deserialize(io.BytesIO(bytes.fromhex(phex)))
+        peer.send_message(m, prev_header=prev)
+        msgs.append(m)
+        prevs.append(prev)
+        while lp.selector.writing and rng.random() < 0.6:
+            peer.handle_can_send(sock)
+    guard = 0
+    while lp.selector.writing and guard < 100000:
+        peer.handle_can_send(sock)
+        guard += 1
+    return sock.pieces, msgs, prevs, peer, guard
+
+
+def judge_sender(script):
+    """None when a receiver of the written bytes gets exactly the messages sent, else a description"""
+    import render
+    from skepticoin.networking import remote_peer as RP
+    pieces, msgs, prevs, peer, guard = run_sender(script)
+    if guard >= 100000:
+        return 'handle_can_send keeps asking for writability', pieces, []
+    wire = b''.join(pieces)
+    frames, err = ref_parse(wire, RP.MAX_MESSAGE_SIZE)
+    consumed = sum(8 + len(f) for f in frames)
+    head = '%d sent, grammar finds %d frames (error %d, %d of %d bytes consumed)' % (len(msgs), len(frames), err,
+                                                                                    consumed, len(wire))
+    if err != 0 or len(frames) != len(msgs) or consumed != len(wire):
+        return head, pieces, frames
+    if peer.send_buffer or peer.send_backlog:
+        return head + '; bytes left unsent although the sender stopped asking for writability', pieces, frames
+    for i, (f, m, prev) in enumerate(zip(frames, msgs, prevs)):
+        if f[53:] != m.serialize():
+            return head + '; frame %d is not message %d' % (i, i), pieces, frames
+        got, e2, _ = impl_feed([frame(f)], raw=False)
+        if e2 != 0 or len(got) != 1 or got[0][1] != render.r_msg(m):
+            return head + '; frame %d does not decode to message %d' % (i, i), pieces, frames
+        if prev is not None and (got[0][0][2] != prev.id or got[0][0][3] != prev.context):
+            return head + '; frame %d does not answer the header it was sent in response to' % i, pieces, frames
+    got, e3, st = impl_feed(pieces)
+    if got != frames or e3 != 0 or st != [b'', False, None]:
+        return head + '; the real receiver fed with the written pieces delivers something else', pieces, frames
+    return None, pieces, frames
+
+
+def sender_level(ck, tier, r):
+    """the sending side: the real ConnectedRemotePeer.send_message / handle_can_send on a socket that accepts an
+    arbitrary number of bytes per send() -> the bytes on the wire are the model's send_stream of the payloads, in
+    order, and the real MessageReceiver fed with exactly those pieces delivers those payloads"""
+    rng = ck.rng
+    reqs = []
+    wires = []
+    for _ in range(12 if tier == 'quick' else 300):
+        nmsgs = rng.choice([1, 2, 3, 5])
+        script = {'seed': rng.getrandbits(30), 'msgs': []}
+        for i in range(nmsgs):
+            m = gen.g_msg(rng, kind=rng.choice([1, 2, 3, 5, 6]))
+            prev = gen.g_msg_header(rng) if rng.random() < 0.5 else None
+            script['msgs'].append([m.serialize().hex(), None if prev is None else prev.serialize().hex()])
+        bad, pieces, frames = judge_sender(script)
+        wire = b''.join(pieces)
+        ck.case(('send', wire, tuple(pieces)), kind='sender/%d-msgs' % nmsgs)
+        if bad:
+            ck.violation('sent-stream-not-received',
+                         'messages handed to send_message are not what a receiver of the written bytes gets: ' + bad,
+                         {'sender_script': script})
+        reqs.append(('send_stream', [], list(frames)))
+        wires.append((wire, frames))
+    if r.ok:
+        outs = model.run_batch(reqs)
+        for (wire, frames), o in zip(wires, outs):
+            if o != wire:
+                ck.disagree('ConnectedRemotePeer.send_message/handle_can_send vs model Framing.send_stream',
+                            {'sender': True, 'frames': [f.hex() for f in frames], 'impl': wire.hex()[:400],
+                             'model': repr(o)[:400]})
+        ck.extra['sender_traces_validated_against_impl'] = len(wires)
+
+
 def run(tier, seed):
     ck = common.Check('C11', tier, seed)
     ck.rule = ('streams of 1-3 frames (payload 0..10 bytes; single corruptions: wrong magic bit, over-limit length '
                'incl. 0x7fffffff/0x80000000/0xffffffff, truncated tail), test limit MAX_MESSAGE_SIZE patched to 6 for '
                'boundary cases and the real 32 MiB limit for header-only streams; chunkings: 1 read, byte-at-a-time, ALL '
                '2-way and ALL 3-way cuts (exhaustive per stream); each chunking run on the real MessageReceiver and on '
-               'the extracted model, and against the reference grammar; non-trivial = distinct (stream, chunking)')
+               'the extracted model, and against the reference grammar; non-trivial = distinct (stream, chunking); sending '
+               'side: 1-5 real messages through the real send_message/handle_can_send on a socket taking 1..all bytes per '
+               'send(), written bytes compared with the model send_stream and fed, in the pieces written, to the real '
+               'receiver')
     ck.trusted += ['extraction + OCaml driver', 'stub peer object collecting delivered frames',
+                   'stub socket/selector/logger under the real ConnectedRemotePeer for the sending side',
                    'run-time patch of remote_peer.MAX_MESSAGE_SIZE to a small test value for boundary cases']
     ck.assumptions += ['one connection; the peer handler does not raise (handler errors are C20)']
     r = ck.build(extract=True)
@@ -305,6 +430,11 @@ def run(tier, seed):
                              'model': repr(m)[:300]})
         ck.extra['traces_validated_against_impl'] = len(cases)
     try:
+        sender_level(ck, tier, r)
+    except Exception:
+        import traceback
+        ck.disagree('sender-level scenario crashed: %s' % traceback.format_exc()[-500:], {})
+    try:
         node_level(ck, tier)
     except Exception:
         import traceback
@@ -316,6 +446,13 @@ def replay(path):
     d = json.load(open(path))
     rp = d.get('replay', {})
     from skepticoin.networking import remote_peer as RP
+    if 'sender_script' in rp:
+        bad, pieces, frames = judge_sender(rp['sender_script'])
+        print('bytes written by send_message/handle_can_send: %s' % b''.join(pieces).hex())
+        print('pieces accepted by the socket: %s' % [len(x) for x in pieces])
+        print('messages sent, in order (without header): %s' % [m[0] for m in rp['sender_script']['msgs']])
+        print('verdict: %s' % (bad or 'a receiver gets exactly the messages sent'))
+        return 1 if bad else 0
     if 'chunks' in rp:
         chunks = [bytes.fromhex(c) for c in rp['chunks']]
         old = RP.MAX_MESSAGE_SIZE
